@@ -286,6 +286,22 @@ def _rename_locals(stmts, suffix):
     return rec(stmts)
 
 
+def _pure_arith(a):
+    """an argument expression that can be evaluated once or many times with the same result and no effect: arithmetic over locals / fields / literals"""
+    if not isinstance(a, dict):
+        return False
+    k = a.get("k")
+    if k in ("path", "lit"):
+        return True
+    if k == "field":
+        return _pure_arith(a["e"])
+    if k in ("paren", "cast", "un"):
+        return a.get("op") != "*" and _pure_arith(a["e"]) if k == "un" else _pure_arith(a["e"])
+    if k == "bin":
+        return _pure_arith(a["l"]) and _pure_arith(a["r"])
+    return False
+
+
 def _rename_one(stmts, old, new, make_mut):
     def rec(n):
         if isinstance(n, list):
@@ -352,16 +368,28 @@ def inline_helpers(doc, log):
         if any(x.get("k") in ("closure",) and any(y.get("k") == "return" for y in walk(x)) for x in walk(fn["body"])):
             return None
         env = {}
+        pre = []
+        assigned = {x["l"]["p"] for x in walk(fn["body"]) if x.get("k") in ("assign", "opassign") and isinstance(x.get("l"), dict) and x["l"].get("k") == "path"}
         for p, a in zip(params, args):
+            if p["name"] in assigned:
+                # a parameter the helper modifies is a local of the helper initialised with the argument
+                if not _pure_arith(a):
+                    return None
+                pre.append({"k": "let", "pat": {"k": "pident", "name": p["name"], "mut": True, "ln": call.get("ln", 0)}, "init": copy.deepcopy(a), "ty": None, "ln": call.get("ln", 0)})
+                continue
             if a.get("k") == "ref":
                 env[p["name"]] = (a["e"], True, a)
-            elif a.get("k") in ("path", "lit", "field") or (a.get("k") == "mcall" and not a.get("args") and a.get("name") in ("len", "nbr_channels", "output_frames_next", "input_frames_next")):
+            elif a.get("k") in ("path", "lit", "field") or (a.get("k") == "mcall" and not a.get("args") and a.get("name") in ("len", "nbr_channels", "output_frames_next", "input_frames_next")) \
+                    or _pure_arith(a):
                 env[p["name"]] = (a, False, a)
             else:
                 return None
         counter[0] += 1
-        body = copy.deepcopy(fn["body"]["stmts"])
+        body = pre + copy.deepcopy(fn["body"]["stmts"])
         body = _rename_locals(body, "__h%d" % counter[0])
+        # the initialisers of the `let mut param = arg` bindings are caller expressions: undo the renaming inside them
+        for i_, st_ in enumerate(pre):
+            body[i_]["init"] = copy.deepcopy(st_["init"])
         env = {k + "__h%d" % counter[0] if False else k: v for k, v in env.items()}
         # parameters are not pidents of the body, so they kept their names
         body = _subst(body, env)
@@ -394,6 +422,15 @@ def inline_helpers(doc, log):
                         if tail is not None and not under_try and tail.get("k") not in ("tuple", "path", "lit"):
                             out.append({"k": "semi", "e": tail, "ln": s.get("ln", 0)})
                         changed = done = True
+            if not done and k == "semi" and e is not None and e.get("k") == "assign" and isinstance(e.get("r"), dict):
+                r = expand(e["r"], owner, False)
+                if r is not None and r[1] is not None:
+                    body, tail = r
+                    out.extend(body)
+                    e2 = dict(e)
+                    e2["r"] = tail
+                    out.append({"k": "semi", "e": e2, "ln": s.get("ln", 0)})
+                    changed = done = True
             if not done and k == "let" and isinstance(s.get("init"), dict):
                 init = s["init"]
                 under_try = init.get("k") == "try"
